@@ -75,6 +75,19 @@ fn c03_ws_server(case: &Case) {
     let mw_first = simkernel::choose(2) == 0;
     let mut reqs = gen_requests(draw_len());
     sanitize(&mut reqs);
+    // sometimes a few requests to inline routes carry a body of 70-100 KB (on a roomy network):
+    // size must not change where a request runs or in which order it is answered
+    if simkernel::choose(6) == 0 {
+        net::set_config(simkernel::net::NetConfig { capacity: 1 << 20, lat_min: 0, lat_max: pick(&[0u64, 100_000]), max_segment: 0 });
+        let mut left = range(1, 3);
+        for (i, r) in reqs.iter_mut().enumerate() {
+            if left > 0 && r.version == 1 && r.qfmt == 1 && r.bfmt == 2 && matches!(r.what.as_str(), "/json/echo" | "/ctx/json") && std::str::from_utf8(&r.body).is_ok() && serde_json::from_slice::<serde_json::Value>(&r.body).is_ok() && simkernel::choose(2) == 0 {
+                r.body = serde_json::to_vec(&json!({"n": i, "s": "x".repeat(pick(&[70_000usize, 100_000]))})).unwrap();
+                left -= 1;
+                simkernel::count("probe.large_body_to_an_inline_route");
+            }
+        }
+    }
     let expect_n = reqs.iter().filter(|r| model(r).ec.is_some()).count();
     let cap = pick(&[0usize, 0, 0, 1, 2, 16]);
     let out_cap = pick(&[256usize, 256, 1, 2, 4]);
